@@ -606,6 +606,9 @@ class Body:
                 y = simplify(x[3][0]) if via_branch else x
                 if isinstance(y, tuple) and y and y[0] == "call" and (y[1] or "").endswith("FromResidual::from_residual"):
                     head = (y[2] or "").split(" as ")[0]
+                    if "task::poll::Poll" in head:
+                        # `?` inside a poll function: the failure value is Poll::Ready(Err(..)) (variant 0); `?` on it breaks again
+                        return ("const", 1 if via_branch else 0, None, None)
                     if "result::Result" in head:
                         return ("const", 1, None, None)                      # Err / Break
                     if "option::Option" in head:
